@@ -4,7 +4,9 @@ package ai
 // `go build -overlay`; not part of the repository.
 
 import (
+	"reflect"
 	"sync/atomic"
+	"unsafe"
 
 	"github.com/nelhage/taktician/tak"
 )
@@ -12,10 +14,26 @@ import (
 // VerifCancel sets the cancel flag of the Analyze call in progress, exactly as the
 // watcher goroutine does when the context ends. The harness calls it from inside the
 // evaluation callback, so the point of cancellation is deterministic.
-func (m *MinimaxAI) VerifCancel() {
-	if m.cancel != nil {
-		atomic.StoreInt32(m.cancel, 1)
+// The field is reached by name through reflection so that the hook does not depend on whether the flag
+// is held by pointer or by value; if no int32 flag named `cancel` exists the harness falls back to real contexts
+// (VerifCancel reports false).
+func (m *MinimaxAI) VerifCancel() bool {
+	f := reflect.ValueOf(m).Elem().FieldByName("cancel")
+	if !f.IsValid() {
+		return false
 	}
+	switch {
+	case f.Kind() == reflect.Ptr && f.Type().Elem().Kind() == reflect.Int32:
+		if f.IsNil() {
+			return true
+		}
+		atomic.StoreInt32((*int32)(unsafe.Pointer(f.Pointer())), 1)
+		return true
+	case f.Kind() == reflect.Int32:
+		atomic.StoreInt32((*int32)(unsafe.Pointer(f.UnsafeAddr())), 1)
+		return true
+	}
+	return false
 }
 
 type VerifTE struct {
